@@ -7,6 +7,7 @@ import S2T.Lemmas.TablesEpub
 import S2T.Gen.Tables
 import S2T.Gen.HtmlSkip
 import S2T.Props.C13_Rtf
+import S2T.Props.C13_RtfLayout
 import S2T.Props.C13_Slide
 /-!
 # C13 — tables come back with their shape and every cell in place
@@ -203,6 +204,65 @@ theorem C13_xlsx_typed :
     (∀ b, Xlsx.getCellValue (.bool b) = .bool b) ∧ (∀ s, Xlsx.getCellValue (.str s) = .str s) ∧
     (∀ iso, Xlsx.getCellValue (.dt iso) = .str iso) ∧ Xlsx.getCellValue .none = .none :=
   Xlsx.getCellValue_typed
+
+/-! Stored rows of DIFFERENT lengths (a worksheet part without `<dimension>` whose rows store different numbers of
+cells: openpyxl's read-only reader then yields tuples of different lengths).  With fix `xlsx-ragged-rows` short rows are
+filled up, so the used range is a rectangle for EVERY row list; before it the table came back ragged (a row shorter
+than `get_dim().columns`, an empty stored row as `[]`). -/
+
+/-- XLSX, any stored row lengths: the used range is r × c with r = the last row holding a value and c = the last column
+    holding a value in one of these rows -/
+theorem C13_xlsx_rect (rows : VGrid) :
+    (Xlsx.usedRange rows).length = Xlsx.findLastDataRow rows ∧
+    ∀ row ∈ Xlsx.usedRange rows, row.length = Xlsx.findLastDataColumn (rows.take (Xlsx.findLastDataRow rows)) :=
+  ⟨Xlsx.usedRange_length rows, Xlsx.usedRange_rect rows⟩
+
+/-- … cell (i, j) of it is the stored cell (i, j) — an empty cell where row i stores fewer than j + 1 cells -/
+theorem C13_xlsx_cell_at (rows : VGrid) (i j : Nat) (hi : i < Xlsx.findLastDataRow rows)
+    (hj : j < Xlsx.findLastDataColumn (rows.take (Xlsx.findLastDataRow rows))) :
+    ((Xlsx.usedRange rows)[i]?.bind (fun row => row[j]?)) = some ((rows[i]?.bind (fun row => row[j]?)).getD Val.none) :=
+  Xlsx.usedRange_cell rows i j hi hj
+
+/-- … and no stored value is lost or moved: a non-empty stored cell (i, j) is cell (i, j) of the used range, however
+    short the other rows are (the column count is the maximum over the rows, not what the shortest row allows) -/
+theorem C13_xlsx_none_lost (rows : VGrid) (i j : Nat) (row : List Val) (v : Val) (hr : rows[i]? = some row)
+    (hv : row[j]? = some v) (hne : Xlsx.isCellNonEmpty v = true) :
+    ((Xlsx.usedRange rows)[i]?.bind (fun row => row[j]?)) = some v := by
+  obtain ⟨hi, hj⟩ := Xlsx.nonEmpty_inside rows i j row v hr hv hne
+  rw [Xlsx.usedRange_cell rows i j hi hj, hr]
+  simp [hv]
+
+/-- the range is tight: its last row holds a value, and unless it has no column some row holds a value in the last one -/
+theorem C13_xlsx_tight_ragged (rows : VGrid) (h : 0 < Xlsx.findLastDataColumn (rows.take (Xlsx.findLastDataRow rows))) :
+    ∃ row ∈ rows.take (Xlsx.findLastDataRow rows),
+      Xlsx.lastIdx Xlsx.isCellNonEmpty row = Xlsx.findLastDataColumn (rows.take (Xlsx.findLastDataRow rows)) := by
+  rcases Xlsx.findLastDataColumn_attained (rows.take (Xlsx.findLastDataRow rows)) 0 with h0 | h1
+  · unfold Xlsx.findLastDataColumn at h; omega
+  · exact h1
+
+/-- the code BEFORE fix `xlsx-ragged-rows` (`rows = [row[:last_col] for row in rows]`, nothing filled up): stored rows of
+    4 and 2 cells and a stored row without cells came back as rows of 4, 2 and 0 cells — not a 4-column grid, and
+    shorter than `get_dim().columns` = 4 (fixed known finding `xlsx.ragged-rows-not-rectangular`) -/
+theorem C13_xlsx_legacy_ragged_counterexample :
+    let rows : VGrid := [[.str "id".toList, .str "name".toList, .str "qty".toList, .str "ok".toList],
+      [.int 1, .str "apple".toList], [], [.int 2, .none, .none, .bool true]]
+    (rows.take (Xlsx.findLastDataRow rows)).map (fun row => row.take (Xlsx.findLastDataColumn (rows.take (Xlsx.findLastDataRow rows))))
+      = [[.str "id".toList, .str "name".toList, .str "qty".toList, .str "ok".toList], [.int 1, .str "apple".toList], [],
+         [.int 2, .none, .none, .bool true]]
+    ∧ Xlsx.usedRange rows
+      = [[.str "id".toList, .str "name".toList, .str "qty".toList, .str "ok".toList], [.int 1, .str "apple".toList, .none, .none],
+         [.none, .none, .none, .none], [.int 2, .none, .none, .bool true]] := by
+  constructor <;> decide
+
+/-- stored rows of 4, 2, 4, 3 and 0 cells (trailing empty cells not stored) and a trailing stored row without values:
+    a 4 × 4 table, every value in place -/
+example :
+    Xlsx.sheetData [[.str "id".toList, .str "name".toList, .str "qty".toList, .str "ok".toList],
+        [.int 1, .str "apple".toList], [.int 2, .str "pear".toList, .flt "12.5".toList, .bool true],
+        [.int 3, .str "plum".toList, .int 7], []] (fun _ => [])
+      = [[.str "id".toList, .str "name".toList, .str "qty".toList, .str "ok".toList],
+        [.int 1, .str "apple".toList, .none, .none], [.int 2, .str "pear".toList, .flt "12.5".toList, .bool true],
+        [.int 3, .str "plum".toList, .int 7, .none]] := by decide
 
 example : ∃ (g : VGrid) (hne : g ≠ []), (g.getLast hne).any Xlsx.isCellNonEmpty = true
     ∧ Xlsx.isTableNameRow (Xlsx.headersOf (g.head hne) (fun _ => "1".toList)) = false :=
